@@ -447,6 +447,29 @@ func ruleRowClone(p *Prog, r *Result) {
 			if isNilConst(st.Val) {
 				return
 			}
+			if mk, ok := st.Val.(*ssa.MakeSlice); ok {
+				// pre-sized list filled by index: every element stored is a Clone() result
+				nfill := 0
+				allInstrs(fn, func(in2 ssa.Instruction) {
+					st2, ok := in2.(*ssa.Store)
+					if !ok {
+						return
+					}
+					ia, ok := st2.Addr.(*ssa.IndexAddr)
+					if !ok || !(ia.X == ssa.Value(mk) || isFieldLoad(ia.X, "AggrPlanField", "Funcs")) {
+						return
+					}
+					nfill++
+					c, ok := st2.Val.(*ssa.Call)
+					if !ok || !c.Call.IsInvoke() || c.Call.Method.Name() != "Clone" {
+						bad = "an accumulator stored into a per-group row is not a Clone() result"
+					}
+				})
+				if nfill == 0 {
+					bad = "per-group row receives a fresh accumulator list that is never filled with Clone() results"
+				}
+				return
+			}
 			apps := appendsInto(st.Val)
 			if len(apps) == 0 {
 				bad = "per-group row receives an accumulator list that is not built from Clone() calls (state shared with the template or another group)"
@@ -592,6 +615,83 @@ func ruleKeyFrame(p *Prog, r *Result) {
 			}
 		}
 	}
+	// the same for keys written into a strings.Builder / bytes.Buffer inside a loop
+	for _, fn := range p.methodsOf(at) {
+		loops := naturalLoops(fn)
+		inLoop := func(b *ssa.BasicBlock) bool {
+			for _, L := range loops {
+				if L.Body[b] {
+					return true
+				}
+			}
+			return false
+		}
+		allInstrs(fn, func(in ssa.Instruction) {
+			al, ok := in.(*ssa.Alloc)
+			if !ok {
+				return
+			}
+			if tn := typeName(deref(al.Type())); tn != "Builder" && tn != "Buffer" {
+				return
+			}
+			var seq []ssa.Value
+			for _, b := range fn.Blocks {
+				if !inLoop(b) {
+					continue
+				}
+				for _, in2 := range b.Instrs {
+					c, ok := in2.(*ssa.Call)
+					if !ok || len(c.Call.Args) != 2 || c.Call.Args[0] != ssa.Value(al) {
+						continue
+					}
+					g := c.Call.StaticCallee()
+					if g == nil {
+						continue
+					}
+					switch g.Name() {
+					case "WriteString", "WriteByte", "WriteRune", "Write":
+						seq = append(seq, concatPieces(c.Call.Args[1], 0)...)
+					}
+				}
+			}
+			if len(seq) == 0 {
+				return
+			}
+			fromConv := false
+			for _, cv := range seq {
+				if mentions(cv, func(v ssa.Value) bool {
+					c, ok := v.(*ssa.Call)
+					return ok && conv != nil && c.Call.StaticCallee() == conv
+				}, 8) {
+					fromConv = true
+				}
+			}
+			if !fromConv {
+				return
+			}
+			n++
+			framed := false
+			for _, cv := range seq {
+				if isFraming(cv, nil) {
+					framed = true
+				}
+			}
+			r.add(framed, p.FName(fn)+"|group-key", p.InstrPos(al), "group key components must be framed (delimiter or length), not bare-concatenated: ('a','bc') and ('ab','c') would share a group")
+			nlen, okDelim := 0, true
+			for i, pc := range seq {
+				if !isTextLength(p, pc) {
+					continue
+				}
+				nlen++
+				if i+1 >= len(seq) || !isNonDigitConst(seq[i+1]) {
+					okDelim = false
+				}
+			}
+			if nlen > 0 {
+				r.add(okDelim, p.FName(fn)+"|group-key|length-delimited", p.InstrPos(al), "a component length rendered as decimal text is followed by a constant that is not a digit (a bare variable-width length is not self-delimiting: 1|2.. and 12|.. read the same)")
+			}
+		})
+	}
 	r.floor("group-key builders", n, 2)
 }
 
@@ -708,9 +808,8 @@ func ruleResultIdx(p *Prog, r *Result) {
 			r.add(okv, key, p.InstrPos(st), "FuncExprs[i].Result = Funcs[i].Complete() with one and the same i")
 		})
 	}
-	r.floor("aggregate result substitutions", n, 2)
+	r.floor("aggregate result substitutions", n, 1)
 }
-
 
 // concatPieces: the operands of a string concatenation in order.
 func concatPieces(v ssa.Value, d int) []ssa.Value {
